@@ -399,3 +399,11 @@ pub proof fn lemma_enter_wf(f: &Fsm, g: &GlobalData)
         wf_tree(f),
 {
 }
+
+pub open spec fn all_children_final(f: &Fsm, cfg: Seq<u32>, p: u32) -> bool {
+    forall|i: int| 0 <= i < st(f, p).states@.len() ==> spec_in_final(f, cfg, #[trigger] st(f, p).states@[i])
+}
+
+pub open spec fn done_state_prefix() -> Seq<char> {
+    "done.state."@
+}
